@@ -232,6 +232,7 @@ class Sym:
             dl = t["discr"]["place"]["local"] if t["discr"]["k"] in ("Copy", "Move") else None
             if dl is not None and self.b["locals"][dl]["ty"] == "bool":
                 val = {"0": "false", "not(0)": "true", "1": "true", "not(1)": "false"}.get(val, val)
+            e, val = normalise_guard(e, val)
             out.append((e, val, d, s, t["discr"]))
         return out
 
@@ -252,3 +253,23 @@ def site_operands(sym, t):
     if t["k"] == "Call":
         return {"args": [sym.operand(a) for a in t["args"]]}
     return {}
+
+
+def normalise_guard(e, val):
+    """`x.len() == 0`, `x.len() != 0`, `x.len() > 0`, `0 < x.len()` are the same test as `x.is_empty()`"""
+    import re
+    m = re.match(r"^(Eq|Ne|Gt|Lt|Ge|Le)\(len\((.*)\),0\)$", e)
+    if m and val in ("true", "false"):
+        op, x, v = m.group(1), m.group(2), val == "true"
+        empty = {"Eq": v, "Ne": not v, "Gt": not v, "Le": v}.get(op)
+        if empty is not None:
+            return "is_empty(%s)" % x, "true" if empty else "false"
+    m = re.match(r"^(Lt|Ge)\(len\((.*)\),1\)$", e)
+    if m and val in ("true", "false"):
+        op, x, v = m.group(1), m.group(2), val == "true"
+        empty = v if op == "Lt" else not v
+        return "is_empty(%s)" % x, "true" if empty else "false"
+    m = re.match(r"^Lt\(0,len\((.*)\)\)$", e)
+    if m and val in ("true", "false"):
+        return "is_empty(%s)" % m.group(1), "false" if val == "true" else "true"
+    return e, val
